@@ -73,8 +73,9 @@ def check(col: Collector, tier: str):
             iter_expr = it.iter
             tgt = it.target
             if isinstance(iter_expr, ast.Call) and call_name(iter_expr) == "zip" and [src(a) for a in iter_expr.args] == ["cpp_ast_node.args", "call_node.args"] \
-                    and isinstance(tgt, ast.Tuple) and len(tgt.elts) == 2:
-                formal, actual = src(tgt.elts[0]), src(tgt.elts[1])
+                    and ((isinstance(tgt, ast.Tuple) and len(tgt.elts) == 2) or isinstance(tgt, ast.Name)):
+                # (a for statement reads the zipped pair by position - E-NORM N14; a comprehension keeps its unpacked names)
+                formal, actual = (src(tgt.elts[0]), src(tgt.elts[1])) if isinstance(tgt, ast.Tuple) else (f"{tgt.id}[0]", f"{tgt.id}[1]")
                 val = v
                 if isinstance(val, ast.Call) and call_name(val) == "as_cpp":
                     recv = val.func.value
